@@ -476,7 +476,7 @@ def qsearch_chunk(cases):
 
 # --------------------------------------------------------------------------- sequences on one path object
 
-SEQ_STEPS = ["esc", "unesc", "str", "len", "dot", "fslash", "dot", "fslash"]
+SEQ_STEPS = ["esc", "unesc", "str", "len", "dot", "fslash", "dot", "fslash", "append", "pop", "str"]
 
 
 def seq_chunk(cases):
@@ -553,13 +553,39 @@ def seq_chunk(cases):
                     return ("seq:add-pop:" + seg_kinds([seg]), "(p + %r).pop() leaves %s, not %s, %s" % (st, json.dumps(r["ok"]["after"]), json.dumps(segs), where))
             return None
 
+        def judge_grown(p, done, want):
+            """after append()/pop() on the object itself: escaped segments, canonical string and copy follow the object"""
+            where = "after %s on YAMLPath(%r)" % (" -> ".join(done), t)
+            e = _out(lambda: codec.segs_to_json(list(p.escaped)))
+            if norm(e) != {"ok": want}:
+                return ("seq:inplace:escaped:" + seg_kinds([seg]), "escaped is %s, not %s, %s" % (json.dumps(norm(e)), json.dumps(want), where))
+            canon = _out(lambda: str(p))
+            if "ok" not in canon:
+                return ("seq:inplace:str-fails:" + seg_kinds([seg]), "str() raises %s %s" % (json.dumps(norm(canon)), where))
+            c = canon["ok"]
+            if not (p.separator is PathSeparators.DOT and c[:1] == "/"):
+                re_ = _out(lambda: codec.segs_to_json(list(YAMLPath(c).escaped)))
+                if norm(re_) != {"ok": want}:
+                    return ("seq:inplace:str-stale:" + seg_kinds([seg]), "str() is %r %s; it re-parses to %s, not to the path's segments %s" % (
+                        c, where, json.dumps(norm(re_)), json.dumps(want)))
+                r = _out(lambda: bool(p == YAMLPath(c)))
+                if norm(r) != {"ok": True}:
+                    return ("seq:inplace:eq:" + seg_kinds([seg]), "p == YAMLPath(str(p)) is %s %s" % (json.dumps(norm(r)), where))
+            r = _out(lambda: codec.segs_to_json(list(YAMLPath(p).escaped)))
+            if norm(r) != {"ok": want}:
+                return ("seq:inplace:copy:" + seg_kinds([seg]), "the copy YAMLPath(p) has segments %s, not %s, %s" % (json.dumps(norm(r)), json.dumps(want), where))
+            u = _out(lambda: len(list(p.unescaped)))
+            if norm(u) != {"ok": len(want)}:
+                return ("seq:inplace:unescaped:" + seg_kinds([seg]), "unescaped holds %s segments, not %d, %s" % (json.dumps(norm(u)), len(want), where))
+            return None
+
         def go():
             p = YAMLPath(t)
             done = []
             bad = judge(p, done)
             if bad:
                 return bad
-            switched = esc_cached = False
+            switched = esc_cached = grown = False
             for step in steps:
                 if step in ("esc", "len") and switched and not esc_cached:
                     # pinned behaviour, not judged here (see notes/C08.md): the first read of .escaped AFTER a separator
@@ -567,6 +593,28 @@ def seq_chunk(cases):
                     continue
                 esc_cached = esc_cached or step in ("esc", "len")
                 switched = switched or step in ("dot", "fslash")
+                if step in ("append", "pop"):
+                    # in-place lengthening / shortening of the SAME object whose caches the earlier steps filled
+                    if switched or st is None or (step == "pop" and not grown) or (step == "append" and grown):
+                        continue
+                    if step == "append":
+                        p.append(st); grown = True
+                    else:
+                        p.pop(); grown = False
+                    done.append(step + ("(%r)" % st if step == "append" else "()"))
+                    bad = judge_grown(p, done, segs + [seg] if grown else segs)
+                    if bad:
+                        return bad
+                    continue
+                if grown:
+                    if step in ("dot", "fslash"):
+                        continue
+                    {"esc": lambda: p.escaped, "unesc": lambda: p.unescaped, "str": lambda: str(p), "len": lambda: len(p)}[step]()
+                    done.append(step)
+                    bad = judge_grown(p, done, segs + [seg])
+                    if bad:
+                        return bad
+                    continue
                 if step == "esc":
                     p.escaped
                 elif step == "unesc":
